@@ -20,10 +20,10 @@ from collections import deque
 from pathlib import Path
 
 from harness.common.framework import ModelUnavailable as ModelUnavailableError
-from harness.translate import c09_exprs, c09_load, c09_schema
+from harness.translate import c09_exprs, c09_load, c09_parse, c09_schema
 
 ID = "C09"
-LEVEL_TEXT = ("Theorems (27, closed): a generic inclusion checker between shape grammars and the JSON-schema subset used by docs/schema.json is sound for "
+LEVEL_TEXT = ("Theorems (31, closed): a generic inclusion checker between shape grammars and the JSON-schema subset used by docs/schema.json is sound for "
               "all documents (oneOf / if-then through a verified exclusion checker, the recursive members/$ref:# pair discharged by the top-level check); a "
               "Gallina model of as_dict(full=True)+JSONEncoder -- object skeleton, expressions concretely (class + dataclass fields as regenerated from "
               "expressions.py), docstring section items concretely (per section kind, regenerated from docstrings/models.py) -- always emits a document of "
@@ -34,22 +34,26 @@ LEVEL_TEXT = ("Theorems (27, closed): a generic inclusion checker between shape 
               "unserialisable default, else a document), and every document produced validates; `loadable` is derived from a model of the loaders' "
               "construction sites (decorator line numbers from ast nodes, parameter kinds per ast.arguments bucket / inspect kind, section kinds per class, "
               "file paths from the finder; inspected defaults always strings; the __init__ the dataclasses extension synthesises): src_ok s -> ploadable (build s); refutation witness for the known finding F7; "
-              "the witnesses of the repaired findings F1..F6, F8 validate. "
+              "the witnesses of the repaired findings F1..F6, F8 validate; the docstring dispatch that runs while the dump is produced never raises: for every "
+              "parser (None, every member of Parser), every style auto can infer and EVERY set of option names avoiding `docstring`/`parser`, parse() reaches a "
+              "text section or a parser (Python keyword binding modelled; signatures and the `parsers` table regenerated from the sources). "
               "Ties on every run: validator model vs jsonschema (real, per-node, mutated documents); dump(model) vs as_json(full=True) -- documents and "
               "exceptions -- on generated regular / multi-portion namespace / stubs-package / inspector pass-through layouts, static and dynamic, with and "
               "without alias resolution, every parser, from several working directories; path functions vs the properties on API-built modules; the "
-              "construction-site models vs the loaders for every function (source ast / inspect.signature on the harness side); grammar membership and "
+              "construction-site models vs the loaders for every function (source ast / inspect.signature on the harness side); parse_dispatch vs "
+              "docstrings.parsers.parse on random parser x option-name sets (unknown names, auto's own, positional names); grammar membership and "
               "loadable of every real tree; depth sweep.")
 LEVEL_NOTE = ("Trusted: Coq kernel, extraction, the three translators (fail closed), jsonschema 4.x Draft7Validator as authority, the abstraction live object -> "
               "model tree (reads attributes and dataclass fields, never as_dict / relative_* / filepath of objects). Not modelled: the expression builder "
-              "(ast -> Expr) and the parsers' item construction -- `fval_ok` (class in the table, one value per field, scalar vs sequence) and the section "
+              "(ast -> Expr) and the parsers' item construction (what runs AFTER the dispatch: a parser body that raises is found by the docstring-matrix "
+              "stream only) -- `fval_ok` (class in the table, one value per field, scalar vs sequence) and the section "
               "value shapes are hypotheses inside `loadable`/`src_ok`, checked on every real tree; declared element types of expression fields are not "
               "honoured by Griffe at run time and not modelled. `placed` (module files below the package directories) is sufficient, not necessary. Known "
               "findings F6, F7, F8 are attributed only when the extracted model of the unrepaired code fails the same way on that very tree and cwd; the "
               "prepared repairs (F6, F8) are not landed, the model describes /repo as it is. Fuel: `exists fuel` + monotonicity; harness uses 16*(depth+2).")
 MODEL = ("Model.C09_top", "run_C09_top")
 MODEL_TARGETS = ["Model/C09_top.vo"]
-COQ_TARGETS = ["Proofs/C09_schema.vo", "Proofs/C09_mem.vo", "Proofs/C09_expr.vo", "Proofs/C09_enc.vo", "Proofs/C09_perm.vo", "Proofs/C09_paths.vo", "Proofs/C09_load.vo"]
+COQ_TARGETS = ["Proofs/C09_schema.vo", "Proofs/C09_mem.vo", "Proofs/C09_expr.vo", "Proofs/C09_enc.vo", "Proofs/C09_perm.vo", "Proofs/C09_paths.vo", "Proofs/C09_load.vo", "Proofs/C09_parse.vo"]
 RULE = ("generated layouts under the scratch directory: regular packages (a fixed feature-complete module: every expression class reachable from "
         "source, all parameter kinds, decorators, bases, nested classes, properties, overloads, dataclass, wildcard/relative/external imports, __all__, "
         "typing-only definitions, dataclasses whose field(...) arguments are names / attributes / calls, a module whose sibling .pyi disagrees with it on "
@@ -65,7 +69,7 @@ RULE = ("generated layouts under the scratch directory: regular packages (a fixe
         "directory, the file-system root; 1.5k/20k random (package path, module path, cwd) triples on API-built modules for the path functions; one "
         "builder case per function; one case per distinct node document and per whole document; mutated node documents for the validator tie; depth "
         "sweep 40..530 operands. non-trivial = node has an optional field, a kind-specific field or a parsed docstring; distinct by canonical JSON")
-TRUSTED = ["translators harness/translate/c09_schema.py (whitelisted JSON-schema keywords), c09_exprs.py, c09_load.py (all fail closed; every Parameter(...) site of visitor / inspector / dataclasses extension / merger / loader must pass a kind that cannot be None)",
+TRUSTED = ["translators harness/translate/c09_schema.py (whitelisted JSON-schema keywords), c09_exprs.py, c09_load.py, c09_parse.py (all fail closed; every Parameter(...) site of visitor / inspector / dataclasses extension / merger / loader must pass a kind that cannot be None)",
            "jsonschema Draft7Validator (the `$schema` the file names) as the authority for validity",
            "abstraction: harness reads name/path/Module._filepath/lineno/docstring/labels/members/bases/decorators/parameters/returns/value/annotation "
            "from live Griffe objects into the model tree; expressions field by field (dataclasses.fields), section items attribute by attribute; the cwd "
@@ -81,6 +85,7 @@ def translate(ctx):
     c09_schema.translate(ctx)
     c09_exprs.translate(ctx)
     c09_load.translate(ctx)
+    c09_parse.translate(ctx)
 
 
 # ---------------------------------------------------------------------------------------------- JSON <-> sexp
@@ -1609,6 +1614,70 @@ def run_docstring_matrix(st: State, root: Path, n: int, direct_only=False):
         sys.path.remove(str(root))
 
 
+OPTION_VALUES = {"method": "heuristics", "style_order": None, "default": None, "docstring": None, "parser": None}
+OPTION_NAMES = ["warn_unknown_params", "trim_doctest_flags", "ignore_init_summary", "returns_multiple_items", "returns_named_value",
+                "returns_type_in_property_summary", "receives_multiple_items", "receives_named_value", "zzz", "warnings", "method", "style_order",
+                "default", "docstring", "parser"]
+
+
+def check_dispatch(st: State):
+    """parse(docstring, parser, **options) against the model's parse_dispatch: every parser value (None, "", every style, an unknown
+    one) x random sets of option names (real ones, unknown ones, auto's own, the positional parameter names). What `auto` infers is
+    computed here from its documentation: `default` if given, else the first of `style_order`, else nothing."""
+    import griffe
+    ctx = st.ctx
+    rng = ctx.rng
+    doc_texts = ["Summary.", DOC_GOOGLE, DOC_NUMPY, DOC_SPHINX]
+    cases = []
+    for _ in range(ctx.budget(400, 4000)):
+        parser = rng.choice([None, None, "", "google", "numpy", "sphinx", "auto", "auto", "rst"])
+        keys = rng.sample(OPTION_NAMES, rng.choice([0, 1, 1, 2, 3, 5]))
+        if rng.random() < 0.7:
+            keys = [k for k in keys if k not in ("docstring", "parser")]
+        options = {k: OPTION_VALUES.get(k, rng.random() < 0.5) for k in keys}
+        inferred = None
+        if "default" in options:
+            options["default"] = rng.choice(["google", "numpy", "sphinx", "auto", griffe.Parser.sphinx, "rst"])
+        if "style_order" in options:
+            options["style_order"] = rng.choice([["numpy", "google"], [griffe.Parser.google], ["auto", "sphinx"], ["rst"]])
+        if "default" in options:
+            inferred = options["default"]
+        elif "style_order" in options:
+            inferred = options["style_order"][0]
+        inferred = inferred.value if isinstance(inferred, griffe.Parser) else inferred
+        docstring = griffe.Docstring(rng.choice(doc_texts), lineno=1, parent=griffe.Function("f", parameters=griffe.Parameters(griffe.Parameter("a"))))
+        try:
+            sections = griffe.parse(docstring, parser, **options)
+            got = "text" if (len(sections) == 1 and sections[0].kind.value == "text" and not parser) else "ok"
+        except TypeError as e:
+            got = "TypeError"
+            if "argument" not in str(e):
+                got = f"TypeError elsewhere: {str(e)[:80]}"
+        except ValueError as e:
+            got = "ValueError" if "is not a valid Parser" in str(e) else f"ValueError elsewhere: {str(e)[:80]}"
+        except Exception as e:  # noqa: BLE001
+            got = f"{type(e).__name__}: {str(e)[:80]}"
+        cases.append((["parse-dispatch", a_opt(inferred), a_opt(parser), keys], got,
+                      {"stream": "dispatch", "parser": parser, "options": {k: str(v) for k, v in options.items()}, "inferred": inferred}))
+    out = ctx.model([c[0] for c in cases])
+    for (q, got, case), r in zip(cases, out):
+        want = {"text": "text", "style": "ok", "TypeError": "TypeError", "ValueError": "ValueError"}.get(r[0] if r else None, str(r))
+        # a falsy parser always gives the text section; a parser run may also return a single text section
+        if want == "text" and got == "ok":
+            got = "text"
+        if want == "ok" and got == "text":
+            got = "ok"
+        ctx.case(case, True)
+        ctx.observe("dispatch", f"{'auto->' + str(case['inferred']) if case['parser'] == 'auto' else case['parser']}: {r[0] if r else r}")
+        if got != want:
+            fine = not any(k in ("docstring", "parser") for k in q[3]) and case["parser"] in (None, "", "google", "numpy", "sphinx", "auto") \
+                and case["inferred"] in (None, "google", "numpy", "sphinx", "auto")
+            if fine and got not in ("ok", "text"):
+                # inside the theorem's domain the implementation raised: no sections, hence no full dump of any object with a docstring
+                ctx.property_failure(case, {"parse_raised": got, "model": r}, finding=None)
+            ctx.tie_failure("correspondence", "parse_dispatch (model) vs docstrings.parsers.parse", {"model": r, "impl": got}, case)
+
+
 def run_cli(root: Path, args):
     """`python -m griffe <args>` from the scratch root: (return code, {package: document} | None, stderr)"""
     import subprocess
@@ -1843,6 +1912,9 @@ def explore(ctx):
         ctx.tie_failure("correspondence", "extracted grammar_in_schema differs from the proved value (true)", {"model": inc})
     if ctx.model([["load-tables"]])[0] != [1]:
         ctx.tie_failure("correspondence", "extracted load_tables_ok differs from the proved value (true)", {})
+    if ctx.model([["parse-tables"]])[0] != [1]:
+        ctx.tie_failure("correspondence", "extracted parse_tables_ok differs from the proved value (true)", {})
+    check_dispatch(st)
     check_paths(st)
     replay_corpus(st, root)
     run_packages(st, root, ctx.budget(6, 48))
